@@ -1028,7 +1028,7 @@ func gen(r *h.Rand, tier string, emit func([]string)) {
 		nb = 12
 	}
 	for i := 0; i < nb; i++ {
-		emit([]string{fmt.Sprintf("batches %d %d %d %d", r.Intn(1000000), 3+r.Intn(2), 500+100*r.Intn(4), 8+r.Intn(5))})
+		emit([]string{fmt.Sprintf("batches %d 4 %d %d", r.Intn(1000000), 1000+100*r.Intn(3), 12+r.Intn(3))})
 	}
 	// free-running concurrent histories (supporting evidence; thorough tier only: their schedules cannot be replayed)
 	ns := 0
